@@ -79,6 +79,15 @@ def build_network(desc: dict):
         kw["ode_modifier"] = desc["ode_modifier"]
     if desc.get("rate_modifier"):
         kw["rate_modifier"] = {int(k): v for k, v in desc["rate_modifier"].items()}
+    if desc.get("example"):
+        import importlib
+
+        mod = importlib.import_module(f"naunet.examples.{desc['example']}")
+        path = REPO / "naunet" / "examples" / desc["example"] / mod.files
+        return Network(
+            filelist=str(path), fileformats=mod.formats, elements=list(mod.elements), pseudo_elements=list(mod.pseudo_elements),
+            allowed_species=list(mod.allowed_species), required_species=list(mod.extra_species), cooling=list(desc.get("cooling") or []),
+        )
     if desc.get("files"):
         return Network(filelist=[f for f, _ in desc["files"]], fileformats=[m for _, m in desc["files"]], **kw)
     reacs = []
@@ -115,7 +124,12 @@ def reference_species(desc, areacs):
         for x in r + p:
             if x not in s:
                 s.append(x)
-    for x in desc.get("required", []) or []:
+    req = list(desc.get("required", []) or [])
+    if desc.get("example"):
+        import importlib
+
+        req += list(importlib.import_module(f"naunet.examples.{desc['example']}").extra_species)
+    for x in req:
         x = canon(x)
         if x not in s:
             s.append(x)
@@ -292,7 +306,7 @@ def case_label(desc):
 
 def _sig_shape(desc):
     """a coarse but deterministic shape descriptor for signatures"""
-    rs = desc.get("reactions", [])
+    rs = desc.get("reactions") or []
     parts = []
     for item in rs[:3]:
         r, p = item[0], item[1]
@@ -536,7 +550,34 @@ def enum_S4(tier):
                 yield {"files": [list(a), list(b)], "required": ["He"], "family": "S4"}
 
 
+def enum_examples(tier):
+    """bundled example networks built the way the example command configures them"""
+    import importlib
+
+    mod = importlib.import_module("naunet.examples.primordial")
+    yield {"example": "primordial", "cooling": list(mod.cooling), "reactions": None, "family": "EX"}
+    yield {"example": "primordial", "cooling": [], "reactions": None, "family": "EX"}
+    if tier != "quick":
+        yield {"example": "deuterium", "cooling": [], "reactions": None, "family": "EX"}
+
+
 def abstract_reactions_any(desc):
+    if desc.get("example"):
+        import importlib
+
+        from ..ref.formats import dec_file_species
+
+        mod = importlib.import_module(f"naunet.examples.{desc['example']}")
+        path = REPO / "naunet" / "examples" / desc["example"] / mod.files
+        allowed = {canon(x) for x in mod.allowed_species}
+        out = []
+        for r, p in dec_file_species(str(path), mod.formats):
+            r = [canon(x) for x in r]
+            p = [canon(x) for x in p]
+            if allowed and not all(x in allowed for x in r + p):
+                continue
+            out.append((r, p))
+        return out
     if desc.get("files"):
         from ..ref.formats import dec_file_species
 
